@@ -277,28 +277,29 @@ def _advance(m: Model, d: Data, qacc: wp.array, qvel: Optional[wp.array] = None)
   """Advance state and time given activation derivatives and acceleration."""
   # TODO(team): can we assume static timesteps?
 
-  # advance activations
-  wp.launch(
-    _next_activation,
-    dim=(d.nworld, m.nu),
-    inputs=[
-      m.opt.timestep,
-      m.actuator_dyntype,
-      m.actuator_actadr,
-      m.actuator_actnum,
-      m.actuator_dynprm,
-      m.actuator_gainprm,
-      m.actuator_biasprm,
-      m.actuator_actlimited,
-      m.actuator_actrange,
-      d.act,
-      d.act_dot,
-      d.actuator_velocity,
-      1.0,
-      True,
-    ],
-    outputs=[d.act],
-  )
+  # advance activations (left untouched when actuation is disabled, as in mj_advance)
+  if not (m.opt.disableflags & DisableBit.ACTUATION):
+    wp.launch(
+      _next_activation,
+      dim=(d.nworld, m.nu),
+      inputs=[
+        m.opt.timestep,
+        m.actuator_dyntype,
+        m.actuator_actadr,
+        m.actuator_actnum,
+        m.actuator_dynprm,
+        m.actuator_gainprm,
+        m.actuator_biasprm,
+        m.actuator_actlimited,
+        m.actuator_actrange,
+        d.act,
+        d.act_dot,
+        d.actuator_velocity,
+        1.0,
+        True,
+      ],
+      outputs=[d.act],
+    )
 
   wp.launch(
     _next_velocity,
